@@ -454,8 +454,12 @@ func (i *interpreter) concretize(x value) value {
 func (i *interpreter) indexIn(idx value, n int) int {
 	if s, ok := idx.(symI); ok {
 		tt := i.ps.tt
-		if !i.ps.branch(tt.bvcmp("bvult", s.t, tt.BV(s.t.w, uint64(n)))) {
-			i.rtPanic(fmt.Sprintf("index out of range [symbolic] with length %d", n))
+		// an index narrower than the length can never be out of range (asciiSpace[c] with c a byte):
+		// the constant would wrap to 0 in the index's width
+		if s.t.w >= 63 || uint64(n) < uint64(1)<<uint(s.t.w) {
+			if !i.ps.branch(tt.bvcmp("bvult", s.t, tt.BV(s.t.w, uint64(n)))) {
+				i.rtPanic(fmt.Sprintf("index out of range [symbolic] with length %d", n))
+			}
 		}
 		return int(i.ps.pickValue(s.t))
 	}
@@ -470,8 +474,10 @@ func (i *interpreter) indexIn(idx value, n int) int {
 func (i *interpreter) boundIn(b value, max int) int {
 	if s, ok := b.(symI); ok {
 		tt := i.ps.tt
-		if !i.ps.branch(tt.bvcmp("bvule", s.t, tt.BV(s.t.w, uint64(max)))) {
-			i.rtPanic(fmt.Sprintf("slice bounds out of range [symbolic] with capacity %d", max))
+		if s.t.w >= 63 || uint64(max) < uint64(1)<<uint(s.t.w) {
+			if !i.ps.branch(tt.bvcmp("bvule", s.t, tt.BV(s.t.w, uint64(max)))) {
+				i.rtPanic(fmt.Sprintf("slice bounds out of range [symbolic] with capacity %d", max))
+			}
 		}
 		return int(i.ps.pickValue(s.t))
 	}
